@@ -401,7 +401,8 @@ fn check_follow_backlog(case: &J, obs: &mut Obs) -> Verdict {
     obs.sub(crate::rng::mix(&[case_hash(case), 6]));
     let mut vs = Vec::new();
     if status != "ok" { vs.push(Violation::new("interrupt|follow-backlog|error-reported", status)); }
-    // records between the marker and the store, plus the line in flight: far below a thousand on any machine
+    // the flag is cleared before the marker is written, so every record after the marker was printed after the interrupt: the
+    // line in flight, not thousands
     if after > 2000 { vs.push(Violation::new("interrupt|follow-backlog|kept-consuming-the-backlog", format!("{} of {} lines were printed before the interrupt and {} after it", before, total, after))); }
     if vs.is_empty() { Verdict::Held } else { Verdict::Violated(vs) }
 }
